@@ -15,10 +15,12 @@ Section ReplayProofs.
   Variable St : Type.
   Variable apply : St -> list op -> option St.
   Variable root : St -> N.
+  Variable lc : bool.
+  Variable wl : N.
   Variable u0 : N.
 
-  Notation run := (run H St apply root u0).
-  Notation advance_one := (advance_one H St apply root u0).
+  Notation run := (run H St apply root lc wl u0).
+  Notation advance_one := (advance_one H St apply root lc wl u0).
   Notation artifacts := (artifacts H).
 
   Definition cbody_of (e : entry) (p : patch) : cbody :=
@@ -48,7 +50,8 @@ Section ReplayProofs.
       root s' = e_root e /\ commit_id H (cbody_of e p) = e_commit e /\ artifacts e p = inr a /\
       w' = {| rs_state := s'; rs_hist := rs_hist w ++ [a] |}.
   Proof.
-    unfold Chain.advance_one. destruct (e_patch e) as [p|]; [|discriminate].
+    unfold Chain.advance_one. destruct (coord_link_check St lc wl t e w); [discriminate|].
+    destruct (e_patch e) as [p|]; [|discriminate].
     destruct (p_warp p =? u0) eqn:Ew; cbn [negb]; [|discriminate].
     destruct (apply (rs_state w) (p_ops p)) as [s'|] eqn:Ea; [|discriminate].
     destruct (root s' =? e_root e) eqn:Er; cbn [negb]; [|discriminate].
@@ -58,6 +61,9 @@ Section ReplayProofs.
     intros E; injection E as <-. apply N.eqb_eq in Ew, Ec.
     exists p, s', a. repeat split; auto.
   Qed.
+
+  Lemma advance_one_coord t e w w' : advance_one t e w = inr w' -> coord_link_check St lc wl t e w = None.
+  Proof. unfold Chain.advance_one. destruct (coord_link_check St lc wl t e w); [discriminate|auto]. Qed.
 
   Lemma run_app es1 es2 t w :
     run (es1 ++ es2) t w =
@@ -255,8 +261,8 @@ Section ReplayProofs.
 
   Theorem replay_truncation_proof h k base bw target :
     (k <= length (h_entries h))%nat ->
-    (target <= N.of_nat k -> replay_at H St apply root (trunc h k) base bw target = replay_at H St apply root h base bw target)
-    /\ (N.of_nat k < target -> replay_at H St apply root (trunc h k) base bw target = inl (EHistoryUnavailable target)).
+    (target <= N.of_nat k -> replay_at H St apply root lc wl (trunc h k) base bw target = replay_at H St apply root lc wl h base bw target)
+    /\ (N.of_nat k < target -> replay_at H St apply root lc wl (trunc h k) base bw target = inl (EHistoryUnavailable target)).
   Proof.
     intros Lk. unfold replay_at, trunc; cbn [h_entries h_u0 h_boundary]. split; intros Ht.
     - assert (L1 : lenN (firstn k (h_entries h)) <? target = false).
